@@ -512,6 +512,13 @@ impl Instrumented for Perm {
     }
 }
 impl Instrumented for Tsp {
+    fn sibling(&self) -> Option<Self> {
+        // same number of cities, the distances reversed: the far cities of this instance are the near ones of the sibling
+        let mx = self.dist.iter().cloned().fold(0.0f64, f64::max);
+        let n = self.n;
+        let dist = (0..n * n).map(|k| if k / n == k % n { 0.0 } else { mx + 1.0 - self.dist[k] }).collect();
+        Some(Tsp { n, dist, kind: self.kind, instr: Instr::new() })
+    }
     fn instr(&self) -> &Instr {
         &self.instr
     }
